@@ -57,6 +57,11 @@ func canonV(c *adt.OpContext, v *adt.Vertex, depth int) string {
 		if v.PatternConstraints != nil {
 			var ps []string
 			for _, p := range v.PatternConstraints.Pairs {
+				// The evaluator only evaluates a pattern's constraint on demand: whether it
+				// has been evaluated yet is not a property of the value.
+				if p.Constraint.BaseValue == nil {
+					p.Constraint.Finalize(c)
+				}
 				ps = append(ps, fmt.Sprintf("[%s]: %s", c.Str(p.Pattern), canonV(c, p.Constraint, depth+1)))
 			}
 			sort.Strings(ps)
